@@ -197,6 +197,17 @@ fn build(tier: Tier) -> Box<dyn Check> {
     for v in stray.seq_range(1, 2).iter() {
         texts.push(v.concat());
     }
+    // long programs: many diagnostics, lines carrying diagnostics of both passes, passes interleaved by line
+    for n in [8usize, 16, 17, 20, 32, 33, 40, 64, 100] {
+        let a: String = (0..n).map(|_| "let x be 5\n").collect();
+        texts.push(a.clone());
+        texts.push(format!("say x\n{}", a));
+        let b: String = (0..n).map(|i| if i % 3 == 0 { "put 1 into y\n".to_string() } else if i % 3 == 1 { "say y plus y\n".to_string() } else { "rock y with 2\nsay x\n".to_string() }).collect();
+        texts.push(b);
+        let c: String = (0..n).rev().map(|i| format!("put {} into x\nsay x plus x, x\n", i)).collect();
+        texts.push(c);
+        texts.push(format!("fun takes k\n{}\nwhile x\n{}\n", a, (0..n).map(|_| "say x\nput 0 into x\n").collect::<String>()));
+    }
     let t: Space<usize> = Space::of((0..TEMPLATES.len()).collect());
     let m: Space<usize> = Space::of((0..MENTIONS.len()).collect());
     Box::new(C19 { corpus: Rc::new(texts), mention: if tier == Tier::Thorough { Space::union(vec![t.product(&m.seq_exact(4), |t, v| (t, v)), t.product(&m.seq_exact(5), |t, v| (t, v))]) } else { t.product(&m.seq_exact(4), |t, v| (t, v)) } })
